@@ -238,9 +238,13 @@ type captured struct {
 	errAttr  *string
 }
 
-type capHandler struct{ c *captured }
+type capHandler struct {
+	c   *captured
+	min slog.Level // records below this level are not enabled (0 = everything: Debug is -4, Info is 0)
+	all bool
+}
 
-func (h capHandler) Enabled(context.Context, slog.Level) bool { return true }
+func (h capHandler) Enabled(_ context.Context, l slog.Level) bool { return h.all || l >= h.min }
 func (h capHandler) WithAttrs([]slog.Attr) slog.Handler       { return h }
 func (h capHandler) WithGroup(string) slog.Handler            { return h }
 func (h capHandler) Handle(_ context.Context, r slog.Record) error {
@@ -268,7 +272,14 @@ func (h capHandler) Handle(_ context.Context, r slog.Record) error {
 
 func capture(logTo func(*slog.Logger)) *captured {
 	c := &captured{stats: map[string]slog.Value{}}
-	logTo(slog.New(capHandler{c}))
+	logTo(slog.New(capHandler{c: c, all: true}))
+	return c
+}
+
+// captureFrom is capture with a logger that only emits records of at least level min.
+func captureFrom(min slog.Level, logTo func(*slog.Logger)) *captured {
+	c := &captured{stats: map[string]slog.Value{}}
+	logTo(slog.New(capHandler{c: c, min: min}))
 	return c
 }
 
@@ -470,6 +481,21 @@ func verifyResultLog(vc *views.ViewContext[views.ResultData], exp expResult) str
 		}
 		if c.msg != wantMsg {
 			return fmt.Sprintf("result log message %q, verdict failed=%v", c.msg, exp.Failed)
+		}
+		// a logger that only emits warnings and errors (F1_LOG_LEVEL=warn): the summary of a failed run
+		// is an error and still comes out, with the same content; that of a passed run is info
+		w := captureFrom(slog.LevelWarn, vc.Log)
+		if exp.Failed && (w.records != 1 || w.msg != wantMsg || w.level != slog.LevelError) {
+			return fmt.Sprintf("with a logger at level warn the summary of a failed run produced %d records (message %q, level %v), expected the one error record %q", w.records, w.msg, w.level, wantMsg)
+		}
+		if exp.Failed {
+			for _, name := range []string{"successful", "failed", "dropped"} {
+				a, erra := c.count(name)
+				b, errb := w.count(name)
+				if erra != nil || errb != nil || a != b {
+					return fmt.Sprintf("with a logger at level warn the failed summary states %s=%d (%v), at level info %d (%v)", name, b, errb, a, erra)
+				}
+			}
 		}
 		if len(c.dupStats) > 0 {
 			return fmt.Sprintf("iteration_stats repeats %v", c.dupStats)
